@@ -3,4 +3,5 @@ package props
 
 import (
 	_ "verif/sim/c03"
+	_ "verif/sim/c08"
 )
